@@ -293,3 +293,9 @@ func WellFormedMemo(memo string) (Verdict, string) {
 	}
 	return WellFormed, ""
 }
+
+// Type URLs of the registered attribute types, for tests that splice raw JSON.
+func URLCCTP() string     { return urlCCTP }
+func URLHyp() string      { return urlHyp }
+func URLInternal() string { return urlInternal }
+func URLFee() string      { return urlFee }
